@@ -55,7 +55,8 @@ def _case(draw, tier):
         prog = draw(gp.program_with_prev(tier, max_sites=4, styles=("assert",), max_leaves=6,
                                          places=("assert", "var", "module", "helper", "lambda")))
         files.append({"prog": prog, "raise_at_end": draw(st.integers(0, 4)) == 0})
-    return {"files": files, "F": draw(flag_sets())}
+    # the helpers promise to be independent of a CI variable in the calling environment
+    return {"files": files, "F": draw(flag_sets()), "ci_env": draw(st.sampled_from([None, None, "CI", "GITHUB_ACTIONS"]))}
 
 
 def signature(case):
@@ -104,11 +105,23 @@ def check(case):
 
     # 2. run_pytest
     changed_p, rc = Capture(), Capture()
+    import os
+
+    ci = case.get("ci_env")
+    saved = os.environ.get(ci) if ci else None
     try:
+        if ci:
+            os.environ[ci] = "true"
         with contextlib.redirect_stdout(sink), contextlib.redirect_stderr(sink):
             Example(dict(files)).run_pytest(args, changed_files=changed_p, returncode=rc)
     except Exception as e:
         raise Violation(f"run_pytest-raised:{type(e).__name__}", f"F={F} {type(e).__name__}: {e}\n{show}")
+    finally:
+        if ci:
+            if saved is None:
+                os.environ.pop(ci, None)
+            else:
+                os.environ[ci] = saved
 
     # 3. real session
     d = drivers.make_project(files, pyproject=None)
